@@ -193,7 +193,10 @@ func (r *Decoder) parseRoot() error {
 }
 
 func (r *Decoder) decodeElement(ectx evaluationContext, element jsonldinternal.ExpandedValue, dropValuePropertyRange bool) error {
-	if elementArray, ok := element.(*jsonldinternal.ExpandedArray); ok {
+	if element == nil {
+		// a null element (such as the expansion of an empty @graph object) describes nothing
+		return nil
+	} else if elementArray, ok := element.(*jsonldinternal.ExpandedArray); ok {
 		for _, item := range elementArray.Values {
 			err := r.decodeElement(ectx, item, dropValuePropertyRange)
 			if err != nil {
